@@ -80,22 +80,44 @@ def build_lean(targets):
     return rc == 0, (so + se)
 
 
-def grep_forbidden():
-    """sorry/admit/axiom/native_decide/... anywhere in the Lean sources (comments stripped)."""
+def import_closure(modules):
+    """Lean source files (relative to LEAN) reachable through `import` lines from the given modules (our two libraries only)"""
+    seen, todo = set(), list(modules)
+    while todo:
+        m = todo.pop()
+        if m in seen or not (m.startswith("GoatModel") or m.startswith("GoatProofs") or m == "Main"):
+            continue
+        path = os.path.join(LEAN, m.replace(".", "/") + ".lean")
+        if not os.path.exists(path):
+            continue
+        seen.add(m)
+        for line in open(path):
+            mm = re.match(r"\s*import\s+([\w.]+)", line)
+            if mm:
+                todo.append(mm.group(1))
+    return sorted(m.replace(".", "/") + ".lean" for m in seen)
+
+
+def grep_forbidden(modules=None):
+    """sorry/admit/axiom/native_decide/... in the Lean sources the given modules depend on (comments stripped);
+    all sources of the project when no module is given."""
     bad = []
     pat = re.compile(r"\bsorry\b|\badmit\b|^\s*axiom\s|native_decide|bv_decide|implemented_by|\bunsafe\s|maxHeartbeats 0")
-    for root, _, files in os.walk(LEAN):
-        if ".lake" in root:
-            continue
-        for f in files:
-            if not f.endswith(".lean"):
+    if modules:
+        files = [os.path.join(LEAN, f) for f in import_closure(list(modules) + ["GoatModel", "Main"])]
+    else:
+        files = []
+        for root, _, fs in os.walk(LEAN):
+            if ".lake" in root:
                 continue
-            txt = open(os.path.join(root, f)).read()
-            txt = re.sub(r"/-.*?-/", lambda m: "\n" * m.group(0).count("\n"), txt, flags=re.S)
-            for i, line in enumerate(txt.split("\n"), 1):
-                line = line.split("--")[0]
-                if pat.search(line):
-                    bad.append("%s:%d: %s" % (os.path.relpath(os.path.join(root, f), LEAN), i, line.strip()))
+            files += [os.path.join(root, f) for f in fs if f.endswith(".lean")]
+    for path in files:
+        txt = open(path).read()
+        txt = re.sub(r"/-.*?-/", lambda m: "\n" * m.group(0).count("\n"), txt, flags=re.S)
+        for i, line in enumerate(txt.split("\n"), 1):
+            line = line.split("--")[0]
+            if pat.search(line):
+                bad.append("%s:%d: %s" % (os.path.relpath(path, LEAN), i, line.strip()))
     return bad
 
 
@@ -377,7 +399,7 @@ def check_property(pid, tier, seed):
             if t in axioms and set(axioms[t]) <= ALLOWED_AXIOMS:
                 discharged.append(t)
         bad = [t for t in obligations if t not in discharged]
-        forb = grep_forbidden()
+        forb = grep_forbidden(mods)
         if bad or forb:
             hdr = {"property": pid, "broken": "axiom audit", "theorems": ",".join(bad), "forbidden": " | ".join(forb[:10]), "out": aout[-800:].replace("\n", " | ")}
             path = write_replay(pid, "audit", hdr, [])
